@@ -592,14 +592,13 @@ def check_property(case, impl):
                 why = whys[-1]
                 o = cands[-1]
                 sig = "ints:cell:" + why
-                if len([k for k in union_keys(rows) if pystr_key(k) == n]) > 1:
+                sh = p16_shape(rows, n)
+                if sh == "list-kept" and why == "seq-not-tuple":
+                    sig = "first-row-tuple:list-kept"
+                elif sh == "scalar-tupled" and why in ("str", "dict"):
+                    sig = "first-row-tuple:scalar-tupled"
+                elif len([k for k in union_keys(rows) if pystr_key(k) == n]) > 1:
                     sig = "str-key-collision"
-                else:
-                    sh = p16_shape(rows, n)
-                    if sh == "list-kept" and why == "seq-not-tuple":
-                        sig = "first-row-tuple:list-kept"
-                    elif sh == "scalar-tupled" and why in ("str", "dict"):
-                        sig = "first-row-tuple:scalar-tupled"
                 fails.append(F("B", "triple %s row %d field %r: evaluator yielded %s, table holds %s (%s)" % (key, i + 1, n, json.dumps(o)[:150], json.dumps(g)[:150], why), sig))
             for n, g in grow.items():
                 if n not in names and n not in ID_COLS and g is not None:
@@ -607,7 +606,7 @@ def check_property(case, impl):
     if any(has_collision(rows_of(case, t)) for t in done):
         # columns of unequal length corrupt the whole interactions table: every mismatch of such a case is attributed to the collision
         for f in fails:
-            if f["sig"].startswith(("ints:", "first-row-tuple")):
+            if f["sig"].startswith("ints:"):
                 f["sig"] = "str-key-collision"
     return fails
 
@@ -769,7 +768,7 @@ def gen_rows(rng, prone, tags):
 class C07(Property):
     id = "C07"
     prop_modules = ["CobaVerif.Props.C07"]
-    quick_n, thorough_n, search_n = 1500, 40000, 2500
+    quick_n, thorough_n, search_n = 1500, 30000, 2500
     case_timeout = 60
     workers = 8
     rule = ("a case is an experiment (1-3 environments, 1-3 learners, 1-2 evaluators, a non-empty set of triples) whose instrumented evaluators yield generated rows "
@@ -905,7 +904,10 @@ class C07(Property):
         for f in fails:
             tags.append("B:" + f["sig"])
         model = None
-        if driver is not None:
+        outside = any(f["sig"] == "run-raised:KeyError:family-vw-without-args" for f in fails)
+        if outside:
+            tags.append("A:skipped-outside-modelled-mechanism")     # Result.__init__'s full_name is not part of the model
+        if driver is not None and not outside:
             p1, txs = transactions(case)
             info = ["d", [[S("n_learners"), ["i", len(lid)]], [S("n_environments"), ["i", len(eid)]],
                           [S("description"), (["s", case["desc"]] if case.get("desc") is not None else None)], [S("seed"), ["i", case.get("seed", 1)]]]]
